@@ -173,6 +173,12 @@ def run(case):
         checks.append(("to_numpy_array", lambda: ra.to_numpy_array(), lambda g: isinstance(g, np.ndarray) and eqrow(g, exp_m, dtype=dtype_fixed), exp_m))
     if n == 0:
         checks.append(("to_numpy_array(0 rows)", lambda: ra.to_numpy_array(), lambda g: isinstance(g, np.ndarray) and g.shape[0] == 0 and g.size == 0 and (not dtype_fixed or g.dtype == dt), "empty %s matrix" % dt))
+    if len(set(lens)) > 1:
+        # rows of different lengths do not form a matrix: the conversion is refused (a matrix that came back would not hold these rows)
+        CTX.tick("c01:not-rectangular")
+        o = attempt(lambda: ra.to_numpy_array())
+        if o.ok:
+            return fail("to_numpy_array of rows with lengths %s (not rectangular)" % short(lens, 80), short(o.value, 160), "a refusal")
     for what, f, ok, exp in checks:
         CTX.tick("c01:readback", tot > 0)
         o = attempt(f)
@@ -436,6 +442,8 @@ def matrix_case(r, c, dtype, vals, vclass="small", order="C"):
 def directed():
     import random
     rng = random.Random(101)
+    for c in coincidence_cases():
+        yield c
     shapes = [[], [0], [3], [0, 0, 0], [0, 2, 3], [2, 3, 0], [2, 0, 3], [1, 0, 0, 4], [0, 0, 1, 0, 0], [2, 2, 2], [1, 1], [0, 12, 1], [5, 4, 3, 2, 1], [3, 3], [4, 4, 4]]
     for lens in shapes:
         for i, ctor in enumerate(CTORS[:-1]):
@@ -485,6 +493,15 @@ def directed():
             for order in ("C", "F", "T", "strided"):
                 yield matrix_case(r_, c_, dtype, vals, order=order)
     yield matrix_case(2, 2, "float64", [float("nan"), 1.0, float("inf"), -0.0], "nonfinite")
+
+
+def coincidence_cases():
+    """row lengths with arithmetic coincidences: the first (or last) row exactly as long as the average row, totals that are multiples of the row count, ..."""
+    import random
+    rng = random.Random(1901)
+    for lens in ([2, 1, 3], [2, 0, 4, 2], [1, 2, 0], [3, 3, 0, 6], [2, 3, 1], [4, 0, 0, 4, 12], [1, 0, 2], [5, 5, 4, 6], [2, 2, 2, 1, 3], [0, 1, 0, 0, 4, 1], [3, 1, 5, 3]):
+        for k, ctor in enumerate(("rows", "flat", "pyrows", "flat_nplens")):
+            yield mk_case(lens, ["int64", "float64", "uint8", "bool"][k % 4], ctor, "small", rng=rng)
 
 
 def random_case(rng, tier):
